@@ -5,8 +5,8 @@ CONSTANTS
   Budget = 1
   Shapes = {"secure3", "insecure3"}
   Denials = {"nsec", "nsec3"}
-  QKinds = {"positive", "nxdeep", "cname1"}
-  AdvActs = {"CorruptSigOctets", "Expire", "DropRrsig", "ReplaceRdata", "CorruptKey", "CorruptDs", "SwapProof", "StripProof", "AddBadSig", "AddCollidingKey", "AddExtraDs"}
+  QKinds = {"positive", "nxdeep"}
+  AdvActs = {"ShortSig", "CorruptSigOctets", "Expire", "DropRrsig", "ReplaceRdata", "CorruptKey", "CorruptDs", "SwapProof", "StripProof", "AddBadSig", "AddCollidingKey", "AddExtraDs"}
 SPECIFICATION Spec
 VIEW View
 INVARIANT Soundness
@@ -17,5 +17,4 @@ INVARIANT CacheTransparent
 INVARIANT NoPanic
 INVARIANT Terminates
 INVARIANT Emit
-PROPERTY Termination
 CHECK_DEADLOCK TRUE
